@@ -156,6 +156,72 @@ def run_audit(repo: Path):
     return {"files": files, "generator_functions": gens, "findings": uniq}
 
 
+# ----------------------------------------------------------------------------- C03: nondeterminism hazards
+_CLOCKS = {"time", "monotonic", "perf_counter", "time_ns", "monotonic_ns", "perf_counter_ns"}
+DIR_ALIAS = {"queue_policies": "queues", "server": "queues", "rate_limiter": "ratelimit", "load_balancer": "loadbalancer",
+             "consensus": "raft"}
+
+
+def _hazards(tree):
+    """(kind, line) of constructs whose result can depend on hash randomisation, OS entropy, wall clock or addresses"""
+    out = []
+    for n in ast.walk(tree):
+        if isinstance(n, (ast.Set, ast.SetComp)):
+            out.append(("set", n.lineno))
+        elif isinstance(n, ast.Call):
+            f = n.func
+            name = f.id if isinstance(f, ast.Name) else (f.attr if isinstance(f, ast.Attribute) else "")
+            base = f.value.id if isinstance(f, ast.Attribute) and isinstance(f.value, ast.Name) else ""
+            if name in ("set", "frozenset") and isinstance(f, ast.Name):
+                out.append(("set", n.lineno))
+            elif name in ("hash", "id") and isinstance(f, ast.Name):
+                out.append((name, n.lineno))
+            elif name in ("Random", "default_rng", "RandomState", "SystemRandom") and not n.args and not n.keywords:
+                out.append(("unseeded-rng", n.lineno))
+            elif name in ("Random", "default_rng", "RandomState"):
+                out.append(("own-rng", n.lineno))
+            elif base == "time" and name in _CLOCKS:
+                out.append(("wall-clock", n.lineno))
+            elif name in ("uuid4", "uuid1", "urandom", "getrandbits") or (base == "datetime" and name in ("now", "utcnow")):
+                out.append(("entropy", n.lineno))
+        elif isinstance(n, ast.Attribute) and isinstance(n.value, ast.Name) and n.value.id == "time" and n.attr in _CLOCKS:
+            out.append(("wall-clock", n.lineno))
+    return out
+
+
+def run_determinism_audit(repo: Path):
+    """per component directory: how many hazard sites (supporting only: weights the C03 generator, recorded in the
+    evidence; every hazard is legitimate if its result never reaches a delivery or a statistic)"""
+    base = repo / "happysimulator"
+    per_dir, sites = {}, []
+    for sub in ("components", "load", "faults", "distributions", "core"):
+        for f in sorted((base / sub).rglob("*.py")):
+            try:
+                tree = ast.parse(f.read_text())
+            except Exception:
+                continue
+            rel = f.relative_to(base)
+            d = rel.parts[1] if sub == "components" and len(rel.parts) > 2 else (
+                Path(rel.parts[1]).stem if sub == "components" else sub)
+            for kind, line in _hazards(tree):
+                per_dir.setdefault(d, {}).setdefault(kind, 0)
+                per_dir[d][kind] += 1
+                sites.append(f"{rel}:{line} {kind}")
+    return {"per_dir": per_dir, "sites": sites}
+
+
+def hot_families_c03(repo: Path, family_names):
+    """families whose component directory has hazard sites other than plain own-rng construction"""
+    aud = run_determinism_audit(repo)
+    hot = []
+    for d, kinds in aud["per_dir"].items():
+        score = sum(v for k, v in kinds.items() if k != "own-rng")
+        fam = DIR_ALIAS.get(d, d)
+        if score and fam in family_names and fam not in hot:
+            hot.append(fam)
+    return sorted(hot), aud
+
+
 if __name__ == "__main__":
     import json
     import sys
